@@ -175,6 +175,9 @@ def _gen_world(r):
     # present; truncated copy: more announced than present).  The reader exposes the frames present (C11); the converter
     # must split, verify and - if asked - delete on the strength of ALL of them
     w["meta_claim"] = r.choice([None] * 9 + ["fewer", "more"]) if kind != "split" else None
+    # a STALE compressed copy (of an earlier transfer: same shape, other content) sits next to the uncompressed original:
+    # whatever the converter does with it, the original handed in must stay recoverable
+    w["stale_cbin"] = kind in ("NP21", "NP24", "NP24_1sh") and w["form"] == "bin" and w["meta_claim"] is None and r.random() < 0.15
     return w
 
 
@@ -252,6 +255,16 @@ class World:
             sr = spikeglx.Reader(self.bin, sort=False)
             sr.compress_file(keep_original=False, chunk_duration=w["orig_chunk"], n_threads=1)
             sr.close()
+        if w.get("stale_cbin"):
+            good = self.bin.read_bytes()
+            world.make_data(w["data_seed"] ^ 0x0F0F, w["ns"], w["nap"]).tofile(self.bin)
+            sr = spikeglx.Reader(self.bin, sort=False)
+            sr.compress_file(keep_original=True, n_threads=1)          # the dependency's defaults, as the converter would use
+            sr.close()
+            self.bin.write_bytes(good)
+            import os as _os
+            st_ = self.cbin.stat()
+            _os.utime(self.bin, ns=(st_.st_atime_ns, st_.st_mtime_ns - 5_000_000_000))      # the re-transferred .bin is not newer than the stale copy
         self.meta_sha = sha1_file(self.meta)
         # expected shanks: {shank number: channel indices (ascending) + sync}
         self.shanks = {}
@@ -514,6 +527,8 @@ def _exec_step(W, st, model, log, stats, bump, seed):
         bump("probes", "cbin_original")
     if W.w.get("meta_claim"):
         bump("probes", "original_metadata_disagrees_with_file_" + W.w["meta_claim"])
+    if W.w.get("stale_cbin"):
+        bump("probes", "stale_compressed_copy_next_to_the_original")
 
     # ---- S1 recoverability + S2 deletion guard (every post-state)
     ok_forms = W.orig_ok()
@@ -770,7 +785,7 @@ def shrink_candidates(plan):
                     c["steps"][i]["fault"] = {"auto": True, "rseed": 7}
                 yield c
     w = plan["world"]
-    for key, val in (("meta_claim", None), ("ns", 1000), ("nap", 4), ("form", "bin")):
+    for key, val in (("stale_cbin", False), ("meta_claim", None), ("ns", 1000), ("nap", 4), ("form", "bin")):
         if w.get(key) != val:
             c = dict(plan)
             c["world"] = dict(w)
